@@ -83,7 +83,9 @@ Definition conv_model (c : conv_case) : res (typemap * list opinfo) :=
 Definition conv_wf (c : conv_case) : bool :=
   let sch := v_schema c in
   let frs := map (pre_frag sch) (v_frags c) in
-  schema_okb sch && frags_okb2 sch frs (v_srcs c) && forallb (op_okb2 sch frs (v_srcs c)) (map (pre_op sch) (v_ops c)).
+  schema_okb sch && frags_okb2 sch frs (v_srcs c) && forallb (op_okb2 sch frs (v_srcs c)) (map (pre_op sch) (v_ops c))
+  (* and the fragment hypothesis of the termination theorem (Proofs/ConvertFuel.v): no cycle of spreads *)
+  && frags_acyclicb frs.
 
 Definition conv_agrees (c : conv_case) : bool :=
   conv_wf c &&
